@@ -115,7 +115,10 @@ func createStepCmafIngesterHdlr(s *Server) func(ctx context.Context, input *idIn
 		if !ok {
 			return nil, huma.Error404NotFound(fmt.Sprintf("CMAF ingest %s not found", input.Id))
 		}
-		ci.triggerNextSegment()
+		err = ci.triggerNextSegment()
+		if err != nil {
+			return nil, huma.Error410Gone(fmt.Sprintf("CMAF ingest %s has stopped", input.Id))
+		}
 		resp := &CmafIngestStepResponse{}
 		resp.Body.ID = fmt.Sprintf("Stepped %s!", input.Id)
 		return resp, nil
